@@ -1,15 +1,17 @@
 """C07 — block durations and the block timeline are consistent everywhere."""
 import copy
+import math
 import os
 import re
 import tempfile
 import warnings
 from fractions import Fraction
+from types import SimpleNamespace
 
 import numpy as np
 
 import timinggen as tg
-from common import F, Toks, qtok
+from common import D, F, Toks, qtok
 
 ID = 'C07'
 GEN_SECTIONS = ['GenTiming', 'FP_timeline', 'FP_get_block']
@@ -24,9 +26,11 @@ MANIFEST = {
             "calc_duration of the decoded block, for own-system events; the curr_dur accumulators of adc_times, rf_times and "
             "waveforms (and the cumsum-minus-own-duration start of their time_range variants) visit exactly the prefix sums "
             "of the stored durations; duration(), TotalDuration and the calculate_kspace total are that same sum; the "
-            "[BLOCKS] integer times the block raster reproduces an on-raster duration. The extracted model and an "
+            "[BLOCKS] integer times the block raster reproduces an on-raster duration and re-read durations give the same prefix "
+            "sums; the time_range variants of adc_times / rf_times / waveforms return a contiguous segment of the full result at "
+            "the same block starts; OwnArgs follows from the constructors' guarantees. The extracted model and an "
             "exact-Fraction oracle are run against add_block/set_block histories, write+read round trips and every "
-            "consumer's time axis on ~450 (quick) sequences over 5 raster families.",
+            "consumer's time axis on ~450 (quick) sequences over 8 raster families.",
     'note': 'Trusted: Coq kernel; translator patterns (block.py, calc_duration.py, sequence.py accumulation statements, '
             'write_seq.py); extraction + driver; binary64 sums are outside the model (tolerance 1e-9*scale+1e-12, three '
             'orders below the smallest raster); RF centre (calc_rf_center) and the corner times inside one gradient are taken '
@@ -39,10 +43,12 @@ SEARCH_BUDGET = 120
 MISMATCH_BUDGET = 0.0
 RULE = ('sequences of 1-9 blocks of compatible raster-aligned events (block/sinc RF with use tags, trapezoids incl. triangles, '
         'extended trapezoids also with tt[0]>0, arbitrary gradients, ADCs, triggers, labels, delays, plain-float delays) on 5 '
-        'raster families with random dead/ring-down times; 40% of the histories overwrite 1-3 blocks with set_block; padded '
+        'raster families (8 in total, three with pairwise different rasters) with random dead/ring-down times; 50% of the histories '
+        'overwrite 1-3 blocks with set_block AFTER decoding consumers warmed the block cache (new events, or the same events / the '
+        'same pre-registered ids / a pure delay with only the padding changed); event counters of duration(); padded '
         'sequences are written and re-read. Oracle (exact Fractions): stored duration == latest end over the input events == '
         'pp.calc_duration(*events) == pp.calc_duration(get_block); duration() total and count; every ADC sample time, RF '
-        'centre time and gradient corner time of waveforms_and_times / rf_times / adc_times (also with random time_range) and '
+        'centre time and gradient corner time of waveforms_and_times / rf_times / adc_times (also with time_range windows that start in the first block, at 0 and at random, incl. waveforms(time_range)) and '
         'the t_* outputs of calculate_kspace == prefix sum of the durations + the in-block time; TotalDuration and the '
         '[BLOCKS] column of the written file; durations after re-reading. Correspondence: set_block_duration, calc_duration, '
         'starts, adc/rf times, gradient piece ends and the [BLOCKS] integers of the extracted Coq model. '
@@ -53,7 +59,7 @@ ASSUMPTIONS = ['all generated times are integer multiples of their raster (the p
                'delays and lengths)']
 
 
-INT_US = ('siemens', 'ge', 'g20')     # raster families whose event times are whole microseconds
+INT_US = ('siemens', 'ge', 'g20', 'b10g5', 'b20g10')     # raster families whose event times are whole microseconds
 
 
 def tol(x):
@@ -72,17 +78,38 @@ def nearest_dist(sorted_arr, x):
     return min(c)
 
 
+WARM = ['get_block', 'get_block', 'waveforms', 'check_timing', 'calc_duration', 'none']
+
+
 def gen_case(rng):
+    import pypulseq as pp
     s = tg.gen_system(rng)
     opts = tg.make_opts(s)
     nb = rng.randint(1, 9)
     padded = rng.random() < 0.6
-    blocks = [tg.gen_block(rng, s, opts, pad=padded or rng.random() < 0.3, p_rf=0.45, p_g=0.45, p_adc=0.4) for _ in range(nb)]
+    blocks = [tg.gen_block(rng, s, opts, pad=padded or rng.random() < 0.3, p_rf=0.45, p_g=0.45, p_adc=0.4, p_empty=0.12)
+              for _ in range(nb)]
+    for b in blocks:
+        # events handed over by pre-registered library id (set_block then takes the id and registers nothing)
+        b['ids'] = rng.random() < 0.3
     case = {'sys': s, 'alt': None, 'blocks': blocks, 'set_blocks': [], 'padded': padded}
-    if rng.random() < 0.4:
+    if rng.random() < 0.5:
         for _ in range(rng.randint(1, 3)):
             idx = rng.randint(1, nb)
-            case['set_blocks'].append([idx, tg.gen_block(rng, s, opts, pad=padded or rng.random() < 0.3)])
+            warm = [rng.choice(WARM) for _ in range(rng.randint(1, 2))]
+            if rng.random() < 0.5:
+                # same events, only the padding delay (hence only the duration) changes
+                cur = blocks[idx - 1]
+                for e2 in case['set_blocks']:
+                    if e2[0] == idx and 'events' in e2[1]:
+                        cur = e2[1]
+                built = [tg.build_event(e, opts, opts) for e in cur['events'] if e['k'] not in ('delay', 'label')]
+                d = F(pp.calc_duration(*built)) if built else Fraction(0)
+                br = F(s['block'])
+                k = max(1, math.ceil(d / br - Fraction(1, 10 ** 6))) + rng.choice([2, 3, 20])
+                case['set_blocks'].append([idx, {'repad': tg.fl(k * br)}, warm])
+            else:
+                case['set_blocks'].append([idx, tg.gen_block(rng, s, opts, pad=padded or rng.random() < 0.3, p_empty=0.1), warm])
     if not padded and rng.random() < 0.5:
         # a plain float as block argument (explicit delay), raster-aligned
         b = rng.choice(blocks)
@@ -92,9 +119,50 @@ def gen_case(rng):
 
 def final_blocks(case):
     fb = [copy.deepcopy(b) for b in case['blocks']]
-    for idx, b in case['set_blocks']:
-        fb[idx - 1] = copy.deepcopy(b)
+    for ent in case['set_blocks']:
+        idx, b = ent[0], ent[1]
+        if 'repad' in b:
+            nb_ = copy.deepcopy(fb[idx - 1])
+            nb_['events'] = [e for e in nb_['events'] if e['k'] != 'delay'] + [{'k': 'delay', 'delay': b['repad'], 'alt': False, 'set': {}}]
+            nb_.pop('float', None)
+            fb[idx - 1] = nb_
+        else:
+            fb[idx - 1] = copy.deepcopy(b)
     return fb
+
+
+def give_ids(seq, evs):
+    """register the events first and hand them to add_block / set_block by id"""
+    for e in evs:
+        if isinstance(e, float) or hasattr(e, 'id'):
+            continue
+        if e.type == 'rf':
+            e.id = seq.register_rf_event(e)[0]
+        elif e.type == 'grad':
+            e.id = seq.register_grad_event(e)[0]
+        elif e.type == 'trap':
+            e.id = seq.register_grad_event(e)
+        elif e.type == 'adc':
+            e.id = seq.register_adc_event(e)
+
+
+def warm_up(seq, actions):
+    """consumers that decode blocks (and fill the block cache) before a block is overwritten"""
+    import pypulseq as pp
+    for a in actions:
+        try:
+            if a == 'get_block':
+                for i in seq.block_events:
+                    seq.get_block(i)
+            elif a == 'waveforms':
+                seq.waveforms_and_times()
+            elif a == 'check_timing':
+                seq.check_timing()
+            elif a == 'calc_duration':
+                for i in seq.block_events:
+                    pp.calc_duration(seq.get_block(i))
+        except Exception:  # noqa: BLE001
+            pass
 
 
 def build(case):
@@ -106,12 +174,23 @@ def build(case):
         warnings.simplefilter('ignore')
         for i, b in enumerate(case['blocks']):
             evs = [tg.build_event(e, opts, opts) for e in b['events']]
+            if b.get('ids'):
+                give_ids(seq, evs)
             if b.get('float') is not None:
                 evs.append(float(b['float']))
             seq.add_block(*evs)
             inputs[i + 1] = evs
-        for idx, b in case['set_blocks']:
-            evs = [tg.build_event(e, opts, opts) for e in b['events']]
+        for ent in case['set_blocks']:
+            idx, b = ent[0], ent[1]
+            warm_up(seq, ent[2] if len(ent) > 2 else [])
+            if 'repad' in b:
+                # the very same event objects (with their ids when they have some) and another explicit delay
+                evs = [e for e in inputs[idx] if not isinstance(e, float) and e.type != 'delay']
+                evs.append(SimpleNamespace(type='delay', delay=float(b['repad'])))
+            else:
+                evs = [tg.build_event(e, opts, opts) for e in b['events']]
+                if b.get('ids'):
+                    give_ids(seq, evs)
             seq.set_block(idx, *evs)
             inputs[idx] = evs
     return seq, inputs
@@ -258,7 +337,7 @@ def evaluate(ctx, case, do_kspace=False):
             fails.append(('calc_duration-decoded-vs-stored', {'block': i, 'calc': float(cd_dec[i]), 'stored': float(stored[i])}))
     # 2. duration()
     total = sum(stored.values())
-    dur, nblk, _ = seq.duration()
+    dur, nblk, evcount = seq.duration()
     if nblk != len(ids) or not close(F(dur), total, scale):
         fails.append(('duration()', {'got': [float(dur), nblk], 'expected': [float(total), len(ids)]}))
     # 3. time axes
@@ -267,6 +346,7 @@ def evaluate(ctx, case, do_kspace=False):
         starts.append(acc)
         acc += stored[i]
     ds = [tg.decode(seq, i) for i in ids]
+    ds_model = ds
     adc, rfx, rfr, axes, wave = expected_axes(seq, ds, starts)
     try:
         wd, tfp_e, tfp_r, t_adc, _ = seq.waveforms_and_times()
@@ -278,27 +358,39 @@ def evaluate(ctx, case, do_kspace=False):
     except Exception as e:  # noqa: BLE001
         fails.append(('waveforms_and_times-raises', {'exception': repr(e)}))
         wd = None
-    # time_range variants: everything inside the window must be returned with the same times
-    if len(ids) >= 2:
+    tr_results = []
+    # time_range variants: every block that overlaps the window is returned, on the SAME time axis as without a window
+    if float(total) > 0:
         r = ctx_rng(case)
-        a = float(total) * r.uniform(0.05, 0.6)
-        b = a + float(total) * r.uniform(0.05, 0.4)
-        try:
-            ta, _ = seq.adc_times(time_range=[a, b])
-            te, _, tr_, _ = seq.rf_times(time_range=[a, b])
-            ftol = float(tol(scale))
-            for name, got, full in (('adc', list(ta), adc), ('rf-exc', list(te), rfx), ('rf-ref', list(tr_), rfr)):
-                gv = np.sort(np.asarray(got, dtype=float))
-                fv = np.sort(np.asarray([float(x) for x in full], dtype=float))
-                inside = fv[(fv > a + 4 * ftol) & (fv < b - 4 * ftol)]
-                miss = [x for x in inside if nearest_dist(gv, x) > ftol]
-                if miss:
-                    fails.append(('time_range-' + name + '-missing', {'time': miss[0], 'range': [a, b]}))
-                shifted = [g for g in gv if nearest_dist(fv, g) > ftol]
-                if shifted:
-                    fails.append(('time_range-' + name + '-shifted', {'time': shifted[0], 'range': [a, b]}))
-        except Exception as e:  # noqa: BLE001
-            fails.append(('time_range-raises', {'exception': repr(e)}))
+        T = float(total)
+        first = float(stored[ids[0]])
+        a = T * r.uniform(0.05, 0.6)
+        wins = [[0.0, T * r.uniform(0.2, 1.0)], [min(first, T) * r.choice([1e-3, 0.3]), T * r.uniform(0.3, 1.0)],
+                [0.0, first * 0.5], [a, a + T * r.uniform(0.05, 0.4)], [a, T]]
+        ftol = float(tol(scale))
+        for a, b in wins[:5 if len(ids) >= 2 else 3]:
+            try:
+                ta, _ = seq.adc_times(time_range=[a, b])
+                te, _, tr_, _ = seq.rf_times(time_range=[a, b])
+                wdt = seq.waveforms(time_range=[a, b])
+                series = [('adc', list(ta), adc), ('rf-exc', list(te), rfx), ('rf-ref', list(tr_), rfr)]
+                for j, ch in enumerate(('gx', 'gy', 'gz')):
+                    series.append(('wave-' + ch, list(np.real(wdt[j][0])), axes[ch]))
+                for name, got, full in series:
+                    gv = np.sort(np.asarray(got, dtype=float))
+                    fv = np.sort(np.asarray([float(x) for x in full], dtype=float))
+                    inside = fv[(fv > a + 4 * ftol) & (fv < b - 4 * ftol)]
+                    miss = [x for x in inside if nearest_dist(gv, x) > ftol]
+                    if miss:
+                        fails.append(('time_range-' + name + '-missing', {'time': miss[0], 'range': [a, b]}))
+                    shifted = [g for g in gv if nearest_dist(fv, g) > ftol]
+                    if shifted:
+                        fails.append(('time_range-' + name + '-shifted', {'time': shifted[0], 'range': [a, b]}))
+                tr_results.append({'a': a, 'b': b, 'adc': list(ta), 'rfx': list(te), 'rfr': list(tr_),
+                                   'wave': [list(np.real(wdt[j][0])) for j in range(3)]})
+                ctx.count('time_range.windows')
+            except Exception as e:  # noqa: BLE001
+                fails.append(('time_range-raises', {'exception': repr(e), 'range': [a, b]}))
     # calculate_kspace time outputs
     if do_kspace:
         try:
@@ -375,7 +467,8 @@ def evaluate(ctx, case, do_kspace=False):
             if d[k] is not None:
                 ctx.count('event.' + (d[k]['kind'] if k != 'rf' else 'rf'))
     return {'seq': seq, 'inputs': inputs, 'ids': ids, 'stored': stored, 'cd_in': cd_in, 'ds': ds, 'starts': starts, 'adc': adc,
-            'rfx': rfx, 'rfr': rfr, 'wave': wave, 'wd': wd, 'cols': cols, 'total': total, 'scale': scale, 'failed': bool(fails)}
+            'rfx': rfx, 'rfr': rfr, 'wave': wave, 'wd': wd, 'cols': cols, 'total': total, 'scale': scale, 'failed': bool(fails),
+            'ds_model': ds_model, 'tr': tr_results, 'evcount': [int(v) for v in evcount]}
 
 
 def ctx_rng(case):
@@ -396,8 +489,15 @@ def compare_model(ctx, items):
             evs = [a for a in args if a.startswith('E')]
             lines.append('timing.calcdur %d %s' % (len(evs), ' '.join(evs)))
             index.append((ci, 'calcdur', i))
-        lines.append('timing.timeline %s %s' % (tg.sys_tok(tg.sys_fr(it['seq'])), tg.blocks_tok(it['ds'])))
+        lines.append('timing.timeline %s %s' % (tg.sys_tok(tg.sys_fr(it['seq'])), tg.blocks_tok(it['ds_model'])))
         index.append((ci, 'timeline', None))
+        lines.append('timing.counts %s' % tg.blocks_tok(it['ds_model']))
+        index.append((ci, 'counts', None))
+        for wi, w in enumerate(it['tr']):
+            if wi not in (0, 3) and ctx.tier == 'quick':     # model evaluation of exact rationals is the slow part
+                continue
+            lines.append('timing.tr %s %s %s %s' % (tg.sys_tok(tg.sys_fr(it['seq'])), tg.blocks_tok(it['ds_model']), qtok(F(w['a'])), qtok(F(w['b']))))
+            index.append((ci, 'tr', wi))
     outs = ctx.model(lines)
     bad = set()
     for (ci, what, i), o in zip(index, outs):
@@ -409,6 +509,45 @@ def compare_model(ctx, items):
             v = Toks(o).q()
             if not close(v, it['stored'][i], sc):
                 ctx.mismatch('set_block_duration', case, {'block': i, 'model': float(v), 'impl': float(it['stored'][i])})
+                bad.add(ci)
+        elif what == 'counts':
+            t = Toks(o)
+            mc = t.list(t.z)
+            if mc != it['evcount']:
+                ctx.mismatch('event_count', case, {'model': mc, 'impl': it['evcount']})
+                bad.add(ci)
+        elif what == 'tr':
+            w = it['tr'][i]
+            parts = [Toks(p) for p in o.split('|')]
+            madc = parts[1].list(parts[1].q)
+            n = parts[2].int()
+            mrf = [(parts[2].z(), parts[2].q()) for _ in range(n)]
+            detail = None
+            if len(madc) != len(w['adc']) or any(not close(a, F(b), sc) for a, b in zip(madc, w['adc'])):
+                detail = {'what': 'adc_times', 'model_n': len(madc), 'impl_n': len(w['adc'])}
+            mx = [t for u, t in mrf if u == 0]
+            mr = [t for u, t in mrf if u == 1]
+            if detail is None and (len(mx) != len(w['rfx']) or len(mr) != len(w['rfr'])
+                                   or any(not close(a, F(b), sc) for a, b in zip(mx, w['rfx']))
+                                   or any(not close(a, F(b), sc) for a, b in zip(mr, w['rfr']))):
+                detail = {'what': 'rf_times', 'model_n': [len(mx), len(mr)], 'impl_n': [len(w['rfx']), len(w['rfr'])]}
+            if detail is None:
+                ftol = float(tol(sc))
+                for j, p in enumerate(parts[3:6]):
+                    n = p.int()
+                    ax = np.sort(np.asarray(w['wave'][j], dtype=float))
+                    for _ in range(n):
+                        a, b = p.q(), p.q()
+                        if nearest_dist(ax, float(a)) > ftol or nearest_dist(ax, float(b)) > ftol:
+                            detail = {'what': 'wave-axis-%d' % j, 'first': float(a), 'last': float(b)}
+                            break
+                    if detail is None and n == 0 and len(ax) > 0:
+                        detail = {'what': 'wave-axis-%d' % j, 'model_pieces': 0, 'impl_points': len(ax)}
+                    if detail:
+                        break
+            if detail:
+                detail['range'] = [w['a'], w['b']]
+                ctx.mismatch('time_range', case, detail)
                 bad.add(ci)
         elif what == 'calcdur':
             v = Toks(o).q()
